@@ -12,7 +12,7 @@ import (
 // explored alternative (any order is allowed by the language).
 //
 //go:norace
-func MapKeys[M ~map[K]V, K comparable, V any](m M) []K {
+func MapKeys[M ~map[K]V, K comparable, V any](m M, site string) []K {
 	keys := make([]K, 0, len(m))
 	for k := range m {
 		keys = append(keys, k)
@@ -21,7 +21,7 @@ func MapKeys[M ~map[K]V, K comparable, V any](m M) []K {
 	if S != nil && !S.aborting && S.cfg.EnvChoices && len(keys) > 1 {
 		// choose a permutation by successive selection: n * (n-1) * ... alternatives
 		for i := 0; i < len(keys)-1; i++ {
-			j := Choose(len(keys)-i, "maprange")
+			j := Choose(len(keys)-i, "maprange@"+site)
 			if j != 0 {
 				k := keys[i+j]
 				copy(keys[i+1:i+j+1], keys[i:i+j])
